@@ -47,7 +47,8 @@ pub trait CoordNum: Copy + PartialEq + PartialOrd
         ensures
             forall|a: Self, b: Self| #![trigger a.add_spec(b)] #![trigger a.add_req(b)] a.add_req(b) && a.add_spec(b).val() == a.val() + b.val(),
             forall|a: Self, b: Self| #![trigger a.sub_spec(b)] #![trigger a.sub_req(b)] a.sub_req(b) && a.sub_spec(b).val() == a.val() - b.val(),
-            forall|a: Self, b: Self| #![trigger a.mul_spec(b)] #![trigger a.mul_req(b)] a.mul_req(b) && a.mul_spec(b).val() == a.val() * b.val(),
+            forall|a: Self, b: Self| #![trigger a.mul_spec(b)] #![trigger a.mul_req(b)] a.mul_req(b) && a.mul_spec(b).val() == a.val() * b.val()
+                && a.mul_spec(b).val() == b.val() * a.val(),   // (commutativity of the integer product, stated so that the order of the factors in the code does not matter)
     ;
 }
 
